@@ -77,6 +77,19 @@ CHECKS.update({
             'reaching the convergence layer is decoded independently.', '6 C19'),
 })
 
+CHECKS.update({
+    'C13': ('model_checking', 'explicit-state search over datagram arrival histories plus exhaustive sizing grid on the real send path',
+            'A real receiving agent under every arrival history (segments of two transfers, another peer, multi-message '
+            'datagrams, duplicates) up to the depth bound with a reference coverage model; (length, MTU) grid on the real '
+            'send path under virtual time; range coding over all subsets.', '6 C13'),
+    'C15': ('exploration', 'complete decision-table enumeration against an independent policy statement',
+            'All 48 TLS-capability/requirement rows and all 1024 certificate-SAN x requirement rows on a fresh real '
+            'endpoint with a scripted TLS context and real X.509 certificates.', '6 C15'),
+    'C20': ('exploration', 'exhaustive enumeration: message-set product, (length, MTU) grid, all arrival permutations',
+            'Three-way codec round trip with an independent BTP-U codec; sizing grid on the real send path; every '
+            'permutation of 3-5 segments with a second transfer interleaved on a fresh real receiving agent.', '6 C20'),
+})
+
 NOT_YET = {
 }
 
